@@ -37,9 +37,9 @@ S_MCT2b == S_Hole43 \cup S_Hole34
 S_MCT3  == S_Two33 \cup S_Two34
 S_MCT4  == S_Two33H1 \cup S_One4HH
 S_SameQ == S_One3 \cup S_One4 \cup S_Hole33
-S_SameT == S_One \cup S_Hole33 \cup S_Two33H1
+S_SameT == S_One \cup S_Hole33
 S_Live  == S_One3 \cup S_Hole33
 S_LiveQ == S_One3 \cup S_One4
 S_SpaceA == S_One3 \cup S_One4
-S_SpaceB == S_Hole33 \cup S_Two33H1 \cup S_Two33H2
+S_SpaceB == S_Hole33 \cup S_Hole43 \cup S_One4HH
 =============================================================================
